@@ -56,6 +56,9 @@ type Hooks struct {
 	AfterBringUp func(w *world.BridgeWorld)
 	// AfterBlock is called after every committed block with its result and the raw txs it contained.
 	AfterBlock func(w *world.BridgeWorld, br *chain.BlockResult, blockNo int)
+	// OnBlockFailure, when set, is called INSTEAD of recording a C09 violation when FinalizeBlock panics or
+	// fails (monitors of other properties that reuse the workload: a block failure is not theirs to report).
+	OnBlockFailure func(blockNo int, height int64, signature, message string)
 }
 
 type mon struct {
@@ -313,14 +316,22 @@ func (m *mon) block(valsBusy bool) {
 	}
 	if br.Panic != "" {
 		sig := panicSignature(br.Panic)
-		m.rec.Violation(sig, fmt.Sprintf("FinalizeBlock panicked at height %d: %s", br.Height, strings.SplitN(br.Panic, "\n", 2)[0]),
-			map[string]any{"height": br.Height, "stack": trimStack(br.Panic), "recent_ops": m.lastOps})
+		msg := fmt.Sprintf("FinalizeBlock panicked at height %d: %s", br.Height, strings.SplitN(br.Panic, "\n", 2)[0])
+		if m.hooks.OnBlockFailure != nil {
+			m.hooks.OnBlockFailure(m.blockNo, br.Height, sig, msg)
+		} else {
+			m.rec.Violation(sig, msg, map[string]any{"height": br.Height, "stack": trimStack(br.Panic), "recent_ops": m.lastOps})
+		}
 		m.stopped = true
 		return
 	}
 	if br.Err != nil {
-		m.rec.Violation("finalize-error/"+firstWords(br.Err.Error()), fmt.Sprintf("FinalizeBlock returned an error at height %d: %v", br.Height, br.Err),
-			map[string]any{"height": br.Height, "recent_ops": m.lastOps})
+		sig, msg := "finalize-error/"+firstWords(br.Err.Error()), fmt.Sprintf("FinalizeBlock returned an error at height %d: %v", br.Height, br.Err)
+		if m.hooks.OnBlockFailure != nil {
+			m.hooks.OnBlockFailure(m.blockNo, br.Height, sig, msg)
+		} else {
+			m.rec.Violation(sig, msg, map[string]any{"height": br.Height, "recent_ops": m.lastOps})
+		}
 		m.stopped = true
 		return
 	}
